@@ -24,6 +24,8 @@ import (
 	"fmt"
 	"io"
 	"net"
+	"os"
+	"runtime/coverage"
 	"syscall"
 	"strconv"
 	"strings"
@@ -638,7 +640,12 @@ func TestVerifMux(t *testing.T) {
 			w.WriteString(res + "\n")
 		}
 		done()
-		// sessions of finished scenarios keep never-ending goroutines alive in this bubble
+		// sessions of finished scenarios keep never-ending goroutines alive in this bubble; syscall.Exit skips
+		// the testing package's profile writer, so a coverage run (tools/coverage.py) flushes its counters here
+		if d := os.Getenv("VERIF_COVDIR"); d != "" {
+			_ = coverage.WriteMetaDir(d)
+			_ = coverage.WriteCountersDir(d)
+		}
 		syscall.Exit(0)
 	})
 }
